@@ -331,19 +331,40 @@ def insertSorted {α : Type} (le : α → α → Bool) (x : α) : List α → Li
 
 def stableSort {α : Type} (le : α → α → Bool) (l : List α) : List α := l.foldl (fun acc x => insertSorted le x acc) []
 
-/-- `sort_by` of grouped rows: per key, i64 order when both cells parse, else string order -/
+/-- `f64::total_cmp` on parsed cells: -inf < finite < +inf < NaN (the cells never carry a sign bit on NaN) -/
+def numTotalCmp : Num → Num → Ordering
+  | .nan, .nan => .eq
+  | .nan, _ => .gt
+  | _, .nan => .lt
+  | .fin a _, .fin b _ => if a < b then .lt else if a == b then .eq else .gt
+  | .inf, .inf | .ninf, .ninf => .eq
+  | .inf, _ | _, .ninf => .gt
+  | .ninf, _ | _, .inf => .lt
+
+/-- comparison of two cells of grouped rows (D80 fix: a total order): numbers by value and before everything
+    that is no number; cells of equal value: integers exactly, an integer before a non-integer spelling, then as text -/
+def cellCmp (x y : Str) : Ordering :=
+  match parseF64? x, parseF64? y with
+  | some u, some v =>
+    let o := numTotalCmp u v
+    if o != .eq then o else
+    let o2 := match parseI64? x, parseI64? y with
+      | some m, some n => ordOfBool (m < n) (m == n)
+      | some _, none => .lt
+      | none, some _ => .gt
+      | none, none => .eq
+    if o2 != .eq then o2 else cmpText x y
+  | some _, none => .lt
+  | none, some _ => .gt
+  | none, none => cmpText x y
+
+/-- `sort_by` of grouped rows: per key `cellCmp`, reversed for `desc` -/
 def groupedCmp (idxs : List Nat) (asc : List Bool) (a b : List (Str × Str)) : Ordering :=
   match idxs, asc with
   | i :: is, d :: ds =>
     let x := (a[i]?.map (·.2)).getD []
     let y := (b[i]?.map (·.2)).getD []
-    -- integers exactly, other numbers by value (D66 fix), the rest as text
-    let o := match parseI64? x, parseI64? y with
-      | some m, some n => ordOfBool (m < n) (m == n)
-      | _, _ =>
-        match parseF64? x, parseF64? y with
-        | some u, some v => (match u.cmp? v with | some c => c | none => cmpText x y)
-        | _, _ => cmpText x y
+    let o := cellCmp x y
     let o := if d then o else ordRev o
     if o != .eq then o else groupedCmp is ds a b
   | _, _ => .eq
